@@ -61,6 +61,28 @@ CLAIMED = {
                  "order, markdown pipe un-escaping) are matched by exact predicates and still counted; other faults on those inputs are still reported."),
         "design_ref": "DESIGN.md section 4 C01",
     },
+    "C09": {
+        "level": "exploration",
+        "technique": "property-based testing: Hypothesis-generated streams and key/flag lists; validity-predicate oracle (ordered permutation under a Python model of the documented collation)",
+        "text": ("Generated streams (0-40 records, 1-3 sort keys mixing ints, floats, numerically-equal spellings, hex, negatives, empties, case variants, "
+                 "punctuation, missing keys, >12 groups) through `sort` with -f -r -c -cr -n -nf -nr -t -tr [-b] at batch sizes 1/3/500: output must be a "
+                 "permutation of byte-identical records, key-less records last in input order, adjacent keyed records non-decreasing under the documented "
+                 "collation, identical key texts in input order. Same predicate for DSL sort (flag strings, user comparators, maps by key/value), top, "
+                 "sort-within-records."),
+        "note": ("Nothing is asserted about compare-equal records with different key texts (statement is silent). Natural sort only on letters+digits without "
+                 "leading zeros. Numeric keys exactly representable as doubles. sort_by_key/sort_by_value do not exist in this tree (function table) and are not checked."),
+        "design_ref": "DESIGN.md section 4 C09",
+    },
+    "C13": {
+        "level": "exploration",
+        "technique": "property-based testing: Hypothesis-generated left/right streams and option sets against a nested-loop reference join (model-based) plus -s/-u differential",
+        "text": ("Generated left files and right streams (0-10 records each, duplicate and empty join values, records lacking join fields, colliding "
+                 "non-join names, 1-2 join fields, empty right stream) with -j/-l/-r, --lp/--rp, --lk, --np/--ul/--ur, --ignore-empty, batch sizes 1/2/500: "
+                 "output sequence (paired + unpaired-right in stream order) and unpaired-left multiset equal a nested-loop Python model; with --ul --ur "
+                 "every input record is present; on inputs sorted by key (key-less records at random positions) -s and -u give the same multiset, equal to the model."),
+        "note": "Trusted: the model in props/c13.py (transcribes the statement and `mlr join --help`). Left-file format overrides and prepipes are not covered.",
+        "design_ref": "DESIGN.md section 4 C13",
+    },
 }
 
 NOT_YET = "check not built yet in this session (see DESIGN.md section 8 build order); will be claimed when its sub-checks run"
